@@ -121,6 +121,12 @@ def startsWithVariable (s : String) : Bool :=
   | some c => c = '_' || c.isUpper
   | none => false
 
+/-- `begins_with_comparison` (fix: comparison after `<-`): the leftmost leaf is a comparison -/
+def Formula.beginsWithComparison : Formula → Bool
+  | .atomic (.cmp _ _) => true
+  | .bin _ l _ => l.beginsWithComparison
+  | _ => false
+
 def Formula.print : Formula → String
   | .atomic a => a.print
   | .not f => "not " ++ parenIf (f.mandatory || 1 < f.prec) f.print
@@ -135,7 +141,8 @@ def Formula.print : Formula → String
     let self : Formula := .bin c l r
     parenIf (l.mandatory || self.prec < l.prec || (self.prec = l.prec && l.rightAssoc)) l.print ++
       c.print ++
-    parenIf (r.mandatory || self.prec < r.prec || (self.prec = r.prec && !self.rightAssoc)) r.print
+    parenIf ((c = .rimp && r.beginsWithComparison) ||
+      r.mandatory || self.prec < r.prec || (self.prec = r.prec && !self.rightAssoc)) r.print
 
 def printTheory (t : Theory) : String := String.join (t.map fun f => f.print ++ ".\n")
 
